@@ -324,8 +324,15 @@ func c06Stress(c *evid.Ctx, seed int64) {
 			}
 		}
 		werr = cw.do(kind)
-		hooks.WaitRotation(env.w, drv.Watchdog)
+		// half of the time the next writer op starts while the rotation triggered by this one
+		// is still queued (it has to wait for it itself)
+		if rng.Intn(2) == 0 {
+			hooks.WaitRotation(env.w, drv.Watchdog)
+		} else {
+			c.Count("writer_ops_issued_without_waiting_for_rotation", 1)
+		}
 	}
+	hooks.WaitRotation(env.w, drv.Watchdog)
 	close(stop)
 	wg.Wait()
 	if werr != nil {
